@@ -231,7 +231,7 @@ func selftestRace() {
 // emulator has its simBeforeLock/simAfterUnlock line next to it, every
 // goroutine body begins with simTaskBegin. An unhooked site is exit 2.
 func selftestHooks() {
-	repo := "/repo"
+	repo := repoDir
 	ents, err := os.ReadDir(repo)
 	if err != nil {
 		fatal2("%v", err)
